@@ -8,6 +8,12 @@ package signjar
 //@   property C03
 //@   pure
 //@
+//@ func digestFiles
+//@   property C08
+//@   requires jar != nil && forall(i, 0, len(jar.File), jar.File[i] != nil)
+//@   before call io.Copy(w, src): assert @signature_files_and_the_manifest_are_not_part_of_the_digest keepFile(f.Name) && f.Name != manifestName
+//@   before call io.ReadAll(src): assert @only_the_manifest_is_read_whole f.Name == manifestName
+//@
 //@ func sigNames
 //@   property C03
 //@   ensures @names_fit_a_zip_name_field len(ret0) <= 3 * len(alias) + 16 && len(ret1) <= 3 * len(alias) + 16
@@ -19,7 +25,7 @@ package signjar
 //@   modifies nothing
 //@
 //@ func (*JarDigest).insertSignature
-//@   property C03
+//@   property C03 C08
 //@   requires len(alias) <= 10000 && len(jarMagic) <= 65535
 //@   requires @every_member_listed_once forall(i, 0, len(jd.inz.File), forall(j, 0, len(jd.inz.File), i != j ==> jd.inz.File[i] != jd.inz.File[j]))
 //@   requires cert != nil && jd.inz != nil && forall(i, 0, len(jd.inz.File), jd.inz.File[i] != nil && zipslicer.fileOK(jd.inz.File[i]))
